@@ -386,3 +386,113 @@ def key_function(run, fnode, keyexpr):
             if isinstance(v, ast.Lambda):
                 return v.args.args[0].arg, v.body
     return None
+
+
+# ------------------------------------------------------------------ alternatives / accumulations (robust to common refactorings)
+def alternatives(fnode, expr, depth=0):
+    """[(value expr, defining stmt or None)]: the expression itself, or, for a local name, every value assigned to it
+    (followed through plain single assignments)."""
+    expr = strip_cast(expr)
+    if depth > 6 or not isinstance(expr, ast.Name):
+        return [(expr, None)]
+    defs = [(st, v) for st, v in assigned_value(fnode, expr.id) if isinstance(st, ast.Assign) and not reads_name(v, expr.id)]
+    if not defs:
+        return [(expr, None)]
+    out = []
+    for st, v in defs:
+        v = strip_cast(v)
+        if isinstance(v, ast.Name) and v.id != expr.id:
+            for v2, st2 in alternatives(fnode, v, depth + 1):
+                out.append((v2, st if st2 is None else st2))
+        else:
+            out.append((v, st))
+    return out
+
+
+def resolved_text(fnode, expr):
+    """Text of expr with single-definition local names replaced by their defining expression (one level)."""
+    alts = alternatives(fnode, expr)
+    if len(alts) == 1:
+        return unparse(alts[0][0])
+    return unparse(expr)
+
+
+def accumulations(fnode, listvar):
+    """How elements get into local list `listvar`: [(element expr, iterable expr or None, [(cond, polarity)], node)].
+    Covers L.append(x) / L.insert(i, x) in loops, L.extend(<gen/listcomp/expr>), L += .., L = [comprehension]."""
+    out = []
+    for n in walk(fnode, nested=False):
+        if isinstance(n, ast.Call) and isinstance(n.func, ast.Attribute) and isinstance(n.func.value, ast.Name) and n.func.value.id == listvar:
+            if n.func.attr in ('append', 'insert') and n.args:
+                lp = enclosing(n, ast.For)
+                out.append((n.args[-1], lp.iter if lp is not None else None, [(g[0], g[1]) for g in guards(n, stop=lp)] if lp is not None else [(g[0], g[1]) for g in guards(n)], n))
+            elif n.func.attr == 'extend' and n.args:
+                a = strip_cast(n.args[0])
+                if isinstance(a, (ast.GeneratorExp, ast.ListComp)) and len(a.generators) == 1:
+                    out.append((a.elt, a.generators[0].iter, [(c, True) for c in a.generators[0].ifs], n))
+                else:
+                    out.append((None, a, [], n))
+        elif isinstance(n, ast.Assign) and len(n.targets) == 1 and isinstance(n.targets[0], ast.Name) and n.targets[0].id == listvar:
+            v = strip_cast(n.value)
+            if isinstance(v, ast.ListComp) and len(v.generators) == 1:
+                out.append((v.elt, v.generators[0].iter, [(c, True) for c in v.generators[0].ifs], n))
+        elif isinstance(n, ast.AugAssign) and isinstance(n.target, ast.Name) and n.target.id == listvar:
+            v = strip_cast(n.value)
+            if isinstance(v, ast.ListComp) and len(v.generators) == 1:
+                out.append((v.elt, v.generators[0].iter, [(c, True) for c in v.generators[0].ifs], n))
+            else:
+                out.append((None, v, [], n))
+    return out
+
+
+def predicate_function(run, fnode, expr):
+    """(param name, body expr) of a one-argument predicate given as lambda or as the name of a nested def / local lambda."""
+    return key_function(run, fnode, expr)
+
+
+def result_dropped(F, call, var, sinks_pred):
+    """Paths from the definition `var = call` on which the value is neither consumed by a sink nor tested falsy before it is
+    overwritten or the function exits. Returns a list of human-readable path descriptions (empty = never dropped)."""
+    cfg = build_cfg(F)
+    start = cfg.node_of(call)
+    bad = []
+    seen = set()
+    work = [(start.id, [start])]
+    while work:
+        nid, path = work.pop()
+        for y, lab in cfg.succ[nid]:
+            node = cfg.nodes[y]
+            src = cfg.nodes[nid]
+            # leaving a test of the variable on its falsy side: nothing to report
+            if src.kind == 'test' and src.id != start.id:
+                c = canon_atom(src.ast)
+                if c and c[0] == 'truthy' and c[1] == var:
+                    falsy_edge = (lab == 'F') == c[3]
+                    if falsy_edge:
+                        continue
+                if c and c[0] == 'is' and c[1] == var and c[2] == 'None':
+                    if (lab == 'T') == c[3]:
+                        continue
+            if node.kind == 'exit':
+                bad.append(' -> '.join('L%d' % p.lineno for p in path if p.lineno) + ' -> exit')
+                continue
+            if node.kind == 'raise':
+                continue
+            if node.ast is not None and sinks_pred(node):
+                continue
+            # redefinition kills the value
+            st = node.ast
+            if isinstance(st, ast.Assign) and any(isinstance(t, ast.Name) and t.id == var for t in st.targets) and node.id != start.id:
+                bad.append(' -> '.join('L%d' % p.lineno for p in path if p.lineno) + ' -> overwritten at L%d' % node.lineno)
+                continue
+            if node.id == start.id:
+                bad.append(' -> '.join('L%d' % p.lineno for p in path if p.lineno) + ' -> overwritten at L%d' % node.lineno)
+                continue
+            key = (y,)
+            if key in seen:
+                continue
+            seen.add(key)
+            work.append((y, path + [node]))
+    return bad
+
+
